@@ -5,7 +5,7 @@ META = {'explanation': 'ghost-heap ownership clause evaluated on every path of t
                        'hand-offs) and of the public operators / slicing / mutators.'}
 EXTRA_TASKS = []
 ALSO_PROPS = ['C01', 'C16', 'C03', 'C05', 'C10']
-EXTRA_TASKS = ['dtype_routes_isolation']
+EXTRA_TASKS = ['dtype_routes_isolation', 'sources_not_retained']
 
 
 def _sample_values(defn, rng):
@@ -37,7 +37,7 @@ def _sample_values(defn, rng):
         digit = {'hex': 'a', 'oct': '5', 'bin': '1'}.get(name, '1')
         return [(digit * k, None) for k in (1, 2, 5)]
     if rt is bytes:
-        return [(b'\x01', None), (b'abc', None)]
+        return [(b'\x01', None), (b'abc', None), (b'ab', 2), (b'\x00\xff\x10', 3)]
     return [('0b101', None), ('0xfe', None)]
 
 
@@ -68,8 +68,8 @@ def dtype_routes_isolation(tier='quick', seed=0, only=None):
             continue
         for value, L in _sample_values(defn, rng):
             kw = {name: value}
-            if L is not None:
-                kw['length'] = L
+            if L is not None and name != 'bytes':
+                kw['length'] = L              # (for bytes=, length= is a window in bits, not the item count)
             # each route is an expression over CLS, so that the replay text is exactly what was run
             routes = [('keyword', f'bitstring.CLS(**{kw!r})')]
             if L is not None:
@@ -118,3 +118,70 @@ def dtype_routes_isolation(tier='quick', seed=0, only=None):
                 'bound': 'boundary and saturating sample values per dtype and allowed length', 'evaluations': evals, 'failures': fails[:3]}]
     return {'id': 'C04.routes', 'obligations': [], 'bounded': bounded, 'evaluations': evals, 'functions': ['dtypes.Register'],
             'summary': f'{evals} creations, {len(fails)} failures'}
+
+
+
+def sources_not_retained(tier='quick', seed=0):
+    """a bitstring built from a buffer-like source does not keep a window onto it: changing the source afterwards changes neither the
+    (immutable or mutable) bitstring nor anything derived from it -- bytearray, writable and read-only memoryviews over mutable memory,
+    array.array, bitarray, BytesIO, lists, other mutable bitstrings.  Bounded, native."""
+    import array
+    import io
+    import random
+    import bitarray
+    import bitstring
+    from bitstring import Bits, BitArray, ConstBitStream, BitStream, Array
+    rng = random.Random(seed)
+    fails = []
+    evals = 0
+    for _ in range(600 if tier == 'quick' else 10000):
+        nb = rng.randint(1, 8)
+        raw = bytearray(rng.randrange(256) for _ in range(nb))
+        kinds = {
+            'bytearray': (lambda: raw, lambda: raw.__setitem__(0, raw[0] ^ 0xff)),
+            'memoryview': (lambda: memoryview(raw), lambda: raw.__setitem__(0, raw[0] ^ 0xff)),
+            'read-only memoryview of a bytearray': (lambda: memoryview(raw).toreadonly(), lambda: raw.__setitem__(0, raw[0] ^ 0xff)),
+            'slice of a read-only memoryview': (lambda: memoryview(raw).toreadonly()[0:nb], lambda: raw.__setitem__(0, raw[0] ^ 0xff)),
+        }
+        arr = array.array('B', raw)
+        kinds['array.array'] = (lambda: arr, lambda: arr.__setitem__(0, arr[0] ^ 0xff))
+        kinds['read-only memoryview of an array'] = (lambda: memoryview(arr).toreadonly(), lambda: arr.__setitem__(0, arr[0] ^ 0xff))
+        ba = bitarray.bitarray(endian=rng.choice(['big', 'little']))
+        ba.frombytes(bytes(raw))
+        kinds['bitarray'] = (lambda: ba, lambda: ba.invert(0))
+        lst = [bool(b & 1) for b in raw]
+        kinds['list'] = (lambda: lst, lambda: lst.__setitem__(0, not lst[0]))
+        src_bits = BitArray(bytes=bytes(raw))
+        kinds['BitArray'] = (lambda: src_bits, lambda: src_bits.invert(0))
+        bio = io.BytesIO(bytes(raw))
+        kinds['BytesIO'] = (lambda: bio, lambda: (bio.seek(0), bio.write(bytes([raw[0] ^ 0xff]))))
+        kind = rng.choice(sorted(kinds))
+        mk, poke = kinds[kind]
+        cls = rng.choice([Bits, ConstBitStream, BitArray, BitStream])
+        route = rng.choice(['auto', 'auto', 'keyword', 'Array'])
+        evals += 1
+        try:
+            if route == 'keyword' and kind in ('bytearray', 'memoryview', 'read-only memoryview of a bytearray'):
+                obj = cls(bytes=mk())
+            elif route == 'keyword' and kind == 'bitarray':
+                obj = cls(bitarray=mk())
+            elif route == 'Array' and kind not in ('list', 'bitarray', 'array.array', 'read-only memoryview of an array', 'BytesIO'):
+                obj = Array('uint8', mk()).data
+            else:
+                obj = cls(mk())
+            before = obj.bin
+            h = hash(obj) if isinstance(obj, Bits) and not isinstance(obj, BitArray) else None
+            derived = Bits(obj)
+            poke()
+            ok = obj.bin == before and derived.bin == before and (h is None or hash(obj) == h)
+        except (TypeError, ValueError):
+            continue
+        if not ok:
+            fails.append({'call': f'{cls.__name__} built via {route} from a {kind} of {bytes(raw).hex()}, then the source is changed', 'observed': 'the bitstring changed',
+                          'python': 'import bitstring\nraw = bytearray(b"\\x0f\\xf0")\nx = bitstring.Bits(memoryview(raw).toreadonly()); before = x.bin\nraw[0] ^= 0xff\nFAILS = x.bin != before\n'})
+            if len(fails) > 4:
+                break
+    return {'id': 'C04.sources', 'obligations': [], 'evaluations': evals,
+            'bounded': [{'id': 'C04/bits.Bits._setauto_no_length_or_offset/sources-are-not-retained', 'qualname': 'bits.Bits._setauto_no_length_or_offset', 'shape': 'source kinds x classes x routes',
+                         'function': 'construction from buffer-like sources', 'bound': '600 random cases (10000 thorough)', 'evaluations': evals, 'failures': fails[:3]}],
+            'summary': f'{evals} constructions, {len(fails)} failures'}
